@@ -624,22 +624,26 @@ def construct_overlap(rng, k1, k2, kdepth, stream="moderate", margin_prob=0.15):
     return s1, s2t, meta
 
 
-def construct_gap(rng, k1, k2, kgap, stream="moderate", margin_prob=0.15):
+def construct_gap(rng, k1, k2, kgap, stream="moderate", margin_prob=0.15, abs_gap=None):
     s1 = nw.gen_collider(rng, k1, stream, spread=3.0, margin_prob=margin_prob)
     s2 = nw.gen_collider(rng, k2, stream, spread=3.0, margin_prob=margin_prob)
     u = nw.rand_unit(rng, stream if stream == "lattice" else "random")
     L = nw.scene_scale([s1, s2])
     s2t = s2
+    sa, sb = nw.support_point(s1, u), nw.support_point(s2, -u)
     for _ in range(3):
-        g = kgap * float(delta_of(L)) * 1.02
-        s = g + nw.support_value(s1, u) + nw.support_value(s2, -u)
-        s2t = nw.translate_spec(s2, s * u)
+        g = (kgap * float(delta_of(L)) * 1.02) if abs_gap is None else abs_gap
+        # the two support points face each other at distance g along u: the true distance IS g
+        # (u separates with plane gap g, and the two support points are g apart)
+        s2t = nw.translate_spec(s2, sa + g * u - sb)
         L2 = nw.scene_scale([s1, s2t])
         if abs(L2 - L) < 1e-9 * L:
             break
         L = L2
     L = nw.scene_scale([s1, s2t])
     meta = dict(stream="gap", kinds=[k1, k2], kgap=kgap, dir=u.tolist(), L=L, sub=stream)
+    if abs_gap is not None:
+        meta.update(stream="touch", gap=abs_gap)
     return s1, s2t, meta
 
 
